@@ -382,6 +382,10 @@ func main() {
 			}
 		}
 	}
+	if mode == "wa" { // runs under the real (coarse) coordinator clock: no patch
+		runWA(n)
+		return
+	}
 	p := gomonkey.ApplyFunc(time.Now, func() time.Time { return fakeNow })
 	defer p.Reset()
 	fakeNow = time.Unix(12345, 0)
@@ -398,9 +402,6 @@ func main() {
 	switch mode {
 	case "ix":
 		runIx(n)
-		return
-	case "wa":
-		runWA(n)
 		return
 	}
 	r := gen.FromEnv(14)
